@@ -193,7 +193,8 @@ def Sim.adv (s : Sim) (d : Nat) (obs : Option (List Nat)) : Sim :=
             if burstOk r1 k firstOk (r1 + skipped) o then
               let s := o.foldl (fun (s : Sim) r =>
                 ((s.deliverTick (tickInfo s.cfg (e1 + (((r - r1) * s.cfg.period : Nat) : Int)))).drain 16)) s
-              (s.flag "burst-observed", 1)
+              -- several ticks processed back to back: they race with the aggregator like any two wake-ups
+              (s.flag "burst-observed", o.length)
             else ((s.deliverTick (tickInfo s.cfg e1)).flag "burst", 1)
           | none => ((s.deliverTick (tickInfo s.cfg e1)).flag "burst", 1)
         else (s.deliverTick (tickInfo s.cfg e1), 1)
